@@ -72,7 +72,7 @@ def tasks(tier, seed):
     T.append(('hookreg',))
     from harness import c07, c09
 
-    for t in c07.tasks(tier, seed):
+    for t in c07.tasks(tier, seed, deepest=False):
         if t[7] is None and (not quick or t[0] <= 2 or t[1] == 1):
             T.append(('ctrl', t))
     for t in c09.tasks(tier, seed):
